@@ -19,6 +19,11 @@ func (core *JApiCore) processInclude(keyword *scanner.Lexeme) *jerr.JApiError {
 	// This directive shouldn't be among core.directives, because we simply
 	// "paste" included file content inside current file.
 
+	// INCLUDE never becomes a directive, so its ban has to be checked here.
+	if core.isBanned(directive.Include) {
+		return japiErrorForLexeme(keyword, directiveNotAllowed(directive.Include))
+	}
+
 	path, je := core.getIncludedFilePath(keyword)
 	if je != nil {
 		return je
